@@ -104,6 +104,12 @@ func (monC14) TaskEnd(s *Sim, t *Task) {
 			if !(0 <= st.Available && st.Available <= st.Ready && st.Ready <= st.Current && st.Current <= st.Desired) {
 				s.Violate("C14", "ers-order", role, "%s (%s) wrote status desired=%d current=%d ready=%d available=%d", t.Label(), role, st.Desired, st.Current, st.Ready, st.Available)
 			}
+			// desired: the nodes this role serves, as the sync read them
+			if role == "active" && v.EDS != nil && len(v.CanaryNodes()) == 0 || role == "active" && v.EDS != nil && v.EDS.Status.Canary != nil {
+				if f := facts(v); int(st.Desired) != len(f.targeted) && !ersCondTrue(&st, edsv1.ConditionTypeReconcileError) {
+					s.Violate("C14", "ers-desired", role, "%s (%s) wrote desired=%d, the node list it read has %d nodes it serves", t.Label(), role, st.Desired, len(f.targeted))
+				}
+			}
 		}
 	case CtrlEDS:
 		if !t.Successful() {
